@@ -1,4 +1,5 @@
 import Sqljson.Driver.ExecOps
+import Sqljson.Driver.TimeOps
 /-!
 Driver: one JSON case per input line, one JSON result per output line (`{"id":…,…}`).
 -/
@@ -9,7 +10,9 @@ def handle (j : Json) : Json :=
   let op := (Codec.getStr? j "op").getD ""
   let body : Json :=
     if op == "exec" then ExecOps.handleExec j
-    else Json.mkObj [("out", "skip"), ("why", Json.str ("unknown op " ++ op))]
+    else match handleTime op j with
+      | some r => r
+      | none => Json.mkObj [("out", "skip"), ("why", Json.str ("unknown op " ++ op))]
   let id := (j.getObjVal? "id").toOption.getD Json.null
   body.setObjVal! "id" id
 
